@@ -1005,7 +1005,11 @@ class t2listing(object):
                 # convert keys to indices as necessary, and expand table names:
                 tablename = tablename_from_specification(tspec)
                 if tablename in tables:
-                    if isinstance(key, int): index, reverse = key, False
+                    if isinstance(key, int):
+                        index, reverse = key, False
+                        # (a row index beyond the table is not a valid specification:
+                        # the scan would look for its line for ever)
+                        if key >= tables[tablename].num_rows: index = None
                     else:
                         index, reverse = None, False
                         if key in tables[tablename].row_name:
